@@ -77,6 +77,8 @@ class Evaluator:
                 return self.g[node.id]
             if node.id in ("True", "False", "None"):
                 return {"True": True, "False": False, "None": None}[node.id]
+            if node.id in ("tuple", "list", "str", "int", "dict", "bool", "set"):
+                return {"tuple": tuple, "list": list, "str": str, "int": int, "dict": dict, "bool": bool, "set": set}[node.id]
             raise Unsupported("name %s" % node.id)
         if isinstance(node, ast.BoolOp):
             if isinstance(node.op, ast.And):
@@ -212,7 +214,11 @@ class Evaluator:
                     raise PyRaise("TypeError", str(err))
             if name in ("min", "max", "range", "str", "bool", "tuple", "list", "reversed", "enumerate", "isinstance", "any", "all", "sorted", "repr"):
                 if name == "isinstance":
-                    raise Unsupported("isinstance")
+                    t = args[1]
+                    ts = t if isinstance(t, tuple) else (t,)
+                    if all(x in (tuple, list, str, int, dict, bool, set) for x in ts):
+                        return isinstance(args[0], ts)
+                    raise Unsupported("isinstance on a non-builtin type")
                 return {"min": min, "max": max, "range": range, "str": str, "bool": bool, "tuple": tuple, "list": list,
                         "reversed": lambda x: list(reversed(x)), "enumerate": lambda x: list(enumerate(x)),
                         "any": any, "all": all, "sorted": sorted, "repr": repr}[name](*args)
@@ -237,6 +243,10 @@ class Evaluator:
                     return getattr(recv, m)(*args)
                 except IndexError as err:
                     raise PyRaise("IndexError", str(err))
+            if isinstance(recv, dict) and m in ("get", "keys", "values", "items"):
+                return getattr(recv, m)(*args)
+            if isinstance(recv, tuple) and m in ("index", "count"):
+                return getattr(recv, m)(*args)
             if recv is None:
                 raise PyRaise("AttributeError", "None.%s" % m)
             raise Unsupported("method %s on %s" % (m, type(recv).__name__))
